@@ -365,6 +365,30 @@ func (e *lifeEnv) exec(line string, salt int) (res string) {
 			e.cl.mu.Unlock()
 		case "transient":
 			err = transientErrs[salt%len(transientErrs)]
+		case "transient-nested":
+			// the re-requested stream ends again (re-openable) before the first re-open has returned: the fake ends it from inside
+			// the OpenStream call of the re-request, once
+			err = transientErrs[salt%len(transientErrs)]
+			err2 := transientErrs[(salt+1)%len(transientErrs)]
+			var once sync.Once
+			e.cl.mu.Lock()
+			e.cl.openHook = func(v uint16) {
+				if v != vb {
+					return
+				}
+				once.Do(func() {
+					if o2 := e.cl.observer(vb); o2 != nil {
+						e.cl.markEnded(vb)
+						o2.End(models.DcpStreamEnd{VbID: vb}, err2)
+					}
+				})
+			}
+			e.cl.mu.Unlock()
+			defer func() {
+				e.cl.mu.Lock()
+				e.cl.openHook = nil
+				e.cl.mu.Unlock()
+			}()
 		case "closed":
 			err = gocbcore.ErrDCPStreamClosed
 		case "final":
@@ -618,6 +642,9 @@ func genLife(r *Rng, kind string) lifeCase {
 		case x < 94 && (kind == "end" || r.Chance(30)):
 			vb := curLo + r.Intn(curHi-curLo+1)
 			c := r.Pick("transient", "transient-held", "closed", "final", "clean")
+			if c == "transient" && r.Chance(35) {
+				c = "transient-nested"
+			}
 			if ended[vb] {
 				break // the server ends a stream for good at most once per session
 			}
